@@ -2,6 +2,7 @@ package main
 
 import (
 	"bytes"
+	"io"
 	"os"
 	"path/filepath"
 
@@ -43,3 +44,9 @@ func c13assemble(g *Gen) {
 }
 
 func c13assembleText(w *bytes.Buffer, f *generator.File) { generator.AssembleGoFile(w, f) }
+
+func c15Dup(s *generator.SnippetWriter, w io.Writer) *generator.SnippetWriter { return s.Dup(w) }
+func c15Append(s *generator.SnippetWriter, r io.Reader) error                 { return s.Append(r) }
+func c15Merge(s *generator.SnippetWriter, r io.Reader, o *generator.SnippetWriter) error {
+	return s.Merge(r, o)
+}
